@@ -8,11 +8,16 @@
 (*   d3x      depth 3 through if-expression / assertion / parentheses              (3 036)   *)
 (*   d3       depth 3: one operand of the root is any depth-2 tree over the plain            *)
 (*            operators, the other a leaf; unary roots over depth-2 trees        (226 100)   *)
+(*   trail    "dangling tail" trees: a spine of 2..3 operators (each next operator the RIGHT,  *)
+(*            resp. LEFT, operand of the previous one, unary / if / assertion / parentheses    *)
+(*            links included) under an outer operator, on either side -- the shapes the        *)
+(*            printer's walks (ends_with_if_expression, ends_with_type_cast..., ends_with_     *)
+(*            prefix) follow; quick: one operator per precedence class, TRAILFULL=1: all       *)
 (* Environment: D3=1 adds family d3; ONLY=<family> restricts the run to one family.           *)
 EXTENDS LuaOps, LuaStr, FiniteSets
 EnvIs(k, v) == k \in DOMAIN IOEnv /\ IOEnv[k] = v
 Fams == IF "ONLY" \in DOMAIN IOEnv THEN {IOEnv.ONLY}
-        ELSE {"d2", "neg", "leafpair", "d3x"} \cup (IF EnvIs("D3", "1") THEN {"d3"} ELSE {})
+        ELSE {"d2", "neg", "leafpair", "d3x", "trail"} \cup (IF EnvIs("D3", "1") THEN {"d3"} ELSE {})
 AllUn == UnOps \cup XOps
 X  == {<<"x">>}
 T1 == Grow(X, AllUn, BinOps)
@@ -21,6 +26,18 @@ P1 == Grow(X, UnOps, BinOps)
 P2 == Grow(P1, UnOps, BinOps)
 Deep2 == P2 \ P1
 Tops == BinOps \cup AllUn
+\* ---- trail: spines
+RepOps == {"or", "and", "<", "..", "+", "*", "^", "not", "u-", "ifx", "cast", "par"}
+TrailLinks == IF EnvIs("TRAILFULL", "1") THEN BinOps \cup AllUn ELSE RepOps
+RECURSIVE Spine(_, _)
+Spine(links, side) ==
+  IF links = <<>> THEN <<"x">>
+  ELSE LET sub == Spine(Tail(links), side) IN LET o == links[1] IN
+       IF o \in BinOps THEN (IF side = "R" THEN <<o, <<"x">>, sub>> ELSE <<o, sub, <<"x">>>>) ELSE <<o, sub>>
+Spines == {Spine(l, sd) : l \in (TrailLinks \X TrailLinks) \cup (TrailLinks \X TrailLinks \X TrailLinks), sd \in {"L", "R"}}
+TrailOf(top) == IF top \notin TrailLinks THEN {}
+                ELSE IF top \in BinOps THEN {<<top, sp, <<"x">>>> : sp \in Spines} \cup {<<top, <<"x">>, sp>> : sp \in Spines}
+                ELSE {<<top, sp>> : sp \in Spines}
 \* members of a family whose root operator is `top` (the split by root operator is only there to let TLC's
 \* workers generate and judge the trees in parallel); leaves are filed under the root "not"
 Members(f, top) ==
@@ -31,6 +48,7 @@ Members(f, top) ==
   ELSE IF f = "d3x" THEN
        (IF top \in BinOps THEN {<<top, <<u, a>>, <<"x">>>> : u \in XOps, a \in T1} \cup {<<top, <<"x">>, <<u, a>>>> : u \in XOps, a \in T1}
         ELSE {<<top, <<v, a>>>> : v \in AllUn, a \in T1})
+  ELSE IF f = "trail" THEN TrailOf(top)
   ELSE IF f = "d3" THEN
        (IF top \in BinOps THEN {<<top, a, <<"x">>>> : a \in Deep2} \cup {<<top, <<"x">>, a>> : a \in Deep2}
         ELSE IF top \in UnOps THEN {<<top, a>> : a \in Deep2} ELSE {})
